@@ -897,7 +897,7 @@ impl<R: Read> RdbReader<R> {
                     let mut entry_idx = 0;
                     
                     while entry_idx < remaining_count {
-                        if entry_idx + 2 >= remaining_count {
+                        if remaining_count - entry_idx <= 2 {
                             break; // Not enough data for a complete entry
                         }
                         
@@ -915,7 +915,12 @@ impl<R: Read> RdbReader<R> {
                         };
                         
                         // Check if we have enough remaining data for all fields
-                        if entry_idx + (field_count * 2) > remaining_count {
+                        // (the count comes from the file: it must not be trusted in arithmetic)
+                        let needed = match field_count.checked_mul(2) {
+                            Some(n) => n,
+                            None => break, // Corrupt field count
+                        };
+                        if needed > remaining_count - entry_idx {
                             break; // Not enough data for all field-value pairs
                         }
                         
